@@ -31,4 +31,4 @@ U = dict(
 )
 
 # blocks of unit numbers routed by Dispatch.v to Model/Units_<ID>.v (offset k = number - BLOCK[ID])
-BLOCK = dict(C07=100, C08=110, C10=120, C11=130, C14=140, C17=150, C18=160, C19=170, C12=190, C05=200, C13=210, C15=250)
+BLOCK = dict(C07=100, C08=110, C10=120, C11=130, C14=140, C17=150, C18=160, C19=170, C12=190, C05=200, C13=210, C15=250, C03=300)
